@@ -12,7 +12,7 @@ func init() {
 	register(&propDef{
 		ID:      "C16",
 		Level:   "other",
-		Explain: "gRPC proxy wiring (no test exercises it). Sites are found by ROLE, not by the name of the unexported function that holds them today: the interceptor is the function of package proxy with the grpc.StreamServerInterceptor parameters whose region calls route.Table.Lookup and the wrapped grpc.StreamHandler; the director is the function returning (context.Context, *grpc.ClientConn, error); the pool is the map whose elements are (structs around) *grpc.ClientConn; a pool key function is a repository function *route.Target -> string whose result is used as a key; the sweep is where that map is ranged over, the janitor the loop that runs a sweep per round; the server options are the grpc.ServerOption constructor calls anywhere in the repository. Branch facts are inherited through single-call-site helpers and into closures. (G1) the wrapped handler is called only where the lookup's target is known non-nil and its error nil (directly, or because a helper returns a nil error only together with a non-nil target); a status returned where the target is nil is codes.NotFound, one returned where the lookup error is non-nil codes.Internal, wherever the status is built; the stream handed on wraps a context.WithValue context and its Context() returns the stored context; (K1) the key (type and constant) and value type written by the interceptor's context.WithValue(ctx, key, target) are read and asserted in the director's region; (M1) the director builds metadata.NewOutgoingContext(ctx', md.Copy()) with md from metadata.FromIncomingContext(ctx'') of its own context, returns that context with a connection obtained from a pool getter keyed by the target read from ctx.Value; a return without connection carries an error; (W1) the options contain the proxy codec, UnknownServiceHandler(TransparentHandler(d)) with d denoting a director of package proxy, a stream interceptor that is or forwards to the interceptor, and receive/send limits from GRPCMaxRxMsgSize/GRPCMaxTxMsgSize (not swapped), each stored into an option slice; (L1) Table.Lookup is called on route.GetTable() with a request whose URL derives from StreamServerInfo.FullMethod and whose Host is the dsthost metadata value where exactly one is present, and with the configured picker/matcher; (H1) every metadata key on the backward slice of that Host is dsthost; (P1) every access of the pool map holds a lock (own or every caller's; write lock for updates) and every key is a range key, target.URL.String(), or a key function's result on all definitions; (P2) an insert is dominated, under the write lock, by a read of the same key and the surplus connection is closed; (P3) the janitor loop is paced, nothing sleeps/waits with the lock held, it is started by a go statement, entries are deleted synchronously on the edge where the table-membership test (predicate with either polarity, or a set of live keys) misses, and that test compares with pool keys; (P4) a key function returns Target.URL.String(); (G2) the handler's error reaches the interceptor's caller unchanged through every helper, wrapper closure and named result. Not decided: message/metadata/trailer/status transparency (delegated to mwitkow/grpc-proxy and grpc-go).",
+		Explain: "gRPC proxy wiring (no test exercises it). Sites are found by ROLE, not by the name of the unexported function that holds them today: the interceptor is the function of package proxy with the grpc.StreamServerInterceptor parameters whose region calls route.Table.Lookup and the wrapped grpc.StreamHandler; the director is the function returning (context.Context, *grpc.ClientConn, error); the pool is the map whose elements are (structs around) *grpc.ClientConn; a pool key function is a repository function *route.Target -> string whose result is used as a key; the sweep is where that map is ranged over, the janitor the loop that runs a sweep per round; the server options are the grpc.ServerOption constructor calls anywhere in the repository. Branch facts are inherited through single-call-site helpers and into closures. What a call runs is followed through callbacks as well: a function value handed to a callee that calls it (a locking helper running the critical section, a per-entry callback, a generic ticker helper, a predicate given to a route.Table method or to slices.ContainsFunc) and a method called through a small interface (resolved from the concrete value, else from the implementations in the repository's gRPC packages); values are followed through fields of repository structs to the stores into them; the gRPC code may live in any package of the repository that imports gRPC. (G1) the wrapped handler is called only where the lookup's target is known non-nil and its error nil (directly, or because a helper returns a nil error only together with a non-nil target — as a result, stored into a field of the per-call state, or given to it as an argument); a status returned where the target is nil is codes.NotFound, one returned where the lookup error is non-nil codes.Internal, wherever the status is built; the stream handed on wraps a context.WithValue context and its Context() returns the stored context; (K1) the key (type and constant) and value type written by the interceptor's context.WithValue(ctx, key, target) are read and asserted in the director's region; (M1) the director builds metadata.NewOutgoingContext(ctx', md.Copy()) with md from metadata.FromIncomingContext(ctx'') of its own context, returns that context with a connection obtained from a pool getter keyed by the target read from ctx.Value; a return without connection carries an error; (W1) the options contain the proxy codec, UnknownServiceHandler(TransparentHandler(d)) with d denoting a director of package proxy, a stream interceptor that is or forwards to the interceptor, and receive/send limits from GRPCMaxRxMsgSize/GRPCMaxTxMsgSize (not swapped), each stored into an option slice; (L1) Table.Lookup is called on route.GetTable() with a request whose URL derives from StreamServerInfo.FullMethod and whose Host is the dsthost metadata value where exactly one is present, and with the configured picker/matcher; (H1) every metadata key on the backward slice of that Host is dsthost; (P1) every access of the pool map holds a lock (own or every caller's; write lock for updates) and every key is a range key, target.URL.String(), or a key function's result on all definitions; (P2) an insert is dominated, under the write lock, by a read of the same key and the surplus connection is closed; (P3) the janitor loop is paced, nothing sleeps/waits with the lock held, it is started by a go statement, entries are deleted synchronously on the edge where the table-membership test misses (a predicate given key and table, a predicate callback run per target, a matcher behind an interface, a found flag of an inlined scan, a set of live keys; the verdicts 'in the table' / 'in no target' are read off what the test returns under the key comparison and must differ), and that test compares the entry's key with pool keys; (P4) a key function returns Target.URL.String(); (G2) the handler's error reaches the interceptor's caller unchanged through every helper, wrapper closure and named result. Not decided: message/metadata/trailer/status transparency (delegated to mwitkow/grpc-proxy and grpc-go).",
 		Run:     runC16,
 		Trusted: []string{"mwitkow/grpc-proxy TransparentHandler forwards frames, metadata, trailers and status unchanged", "grpc-go honours codec, interceptor and size options"},
 		Mutants: append([]mutant{
@@ -34,7 +34,7 @@ func init() {
 			{Name: "cleanup without pause", File: "proxy/grpc_handler.go", Old: "\t\tp.lock.Unlock()\n\t\ttime.Sleep(p.cleanupInterval)", New: "\t\tp.lock.Unlock()", Expect: "C16.P3"},
 			{Name: "lookup host taken from authority instead of dsthost", File: "proxy/grpc_handler.go", Old: "\thosts := md[\"dsthost\"]", New: "\thosts := md[\":authority\"]", Expect: "C16.L1"},
 			{Name: "benign: chained interceptor", File: "main.go", Old: "grpc.StreamInterceptor(proxyInterceptor.Stream),", New: "grpc.ChainStreamInterceptor(proxyInterceptor.Stream),", Expect: ""},
-		}, c16moreMutants...),
+		}, append(c16moreMutants, c16round2Mutants...)...),
 	})
 }
 
@@ -83,7 +83,7 @@ func runC16G1K1(c *Ctx) {
 		// the stream handed on carries the context with the target
 		wrapped := false
 		if len(call.Call.Args) == 2 {
-			wrapped = derives(call.Call.Args[1], func(v ssa.Value) bool {
+			wrapped = c16derivesF(call.Call.Args[1], func(v ssa.Value) bool {
 				wv, ok := isCallTo(v, "context.WithValue")
 				return ok && wv != nil
 			})
@@ -170,6 +170,7 @@ func runC16G1K1(c *Ctx) {
 	})
 	type rd struct {
 		key    ssa.Value
+		call   *ssa.Call
 		assert []types.Type
 	}
 	var reads []rd
@@ -177,7 +178,7 @@ func runC16G1K1(c *Ctx) {
 		c.undecided("C16.K1", "anchor|proxy director", "no function of package proxy returns (context.Context, *grpc.ClientConn, error)")
 		return
 	}
-	eachInstrOf(c.region(R.directors...), func(_ *ssa.Function, i ssa.Instruction) {
+	eachInstrOf(c16region(R.directors...), func(_ *ssa.Function, i ssa.Instruction) {
 		v, ok := i.(ssa.Value)
 		if !ok {
 			return
@@ -186,13 +187,26 @@ func runC16G1K1(c *Ctx) {
 		if call == nil {
 			return
 		}
-		x := rd{key: stripIface(call.Call.Args[0])}
+		x := rd{key: stripIface(call.Call.Args[0]), call: call}
 		for _, r := range *call.Referrers() {
 			if ta, ok := r.(*ssa.TypeAssert); ok {
 				x.assert = append(x.assert, ta.AssertedType)
 			}
 		}
 		reads = append(reads, x)
+	})
+	// the assertion may be made on the value after it travelled through an accessor that returns it as interface{}
+	eachInstrOf(c16region(R.directors...), func(_ *ssa.Function, i ssa.Instruction) {
+		ta, ok := i.(*ssa.TypeAssert)
+		if !ok {
+			return
+		}
+		for k := range reads {
+			rc := reads[k].call
+			if ta.X != rc && derives(ta.X, func(x ssa.Value) bool { return x == rc }) {
+				reads[k].assert = append(reads[k].assert, ta.AssertedType)
+			}
+		}
 	})
 	sameKey := func(a, b ssa.Value) bool {
 		if !types.Identical(a.Type(), b.Type()) {
@@ -228,7 +242,20 @@ func runC16G1K1(c *Ctx) {
 // c16poolGetter: call is a synchronous call of a repository function that hands out a *grpc.ClientConn and consults the
 // connection table (today (*grpcConnectionPool).Get).
 func c16poolGetter(call *ssa.Call) bool {
-	sc := call.Call.StaticCallee()
+	if call.Call.IsInvoke() {
+		// the pool behind a small interface: what may stand behind it
+		ms := c16invokeTargets(&call.Call)
+		for _, m := range ms {
+			if !c16poolGetterFn(m) {
+				return false
+			}
+		}
+		return len(ms) > 0
+	}
+	return c16poolGetterFn(call.Call.StaticCallee())
+}
+
+func c16poolGetterFn(sc *ssa.Function) bool {
 	if sc == nil || !isRepoFn(sc) {
 		return false
 	}
@@ -247,8 +274,7 @@ func c16poolGetter(call *ssa.Call) bool {
 		return true
 	}
 	// the read may sit in a closure handed to a locking wrapper
-	var c *Ctx // region does not use its receiver
-	for _, f := range c.region(unwrap(sc)) {
+	for _, f := range c16region(unwrap(sc)) {
 		if fnHas(f, isRead) {
 			return true
 		}
@@ -262,7 +288,7 @@ func runC16M1(c *Ctx) {
 		c.undecided("C16.M1", "proxy.GetGRPCDirector|director closure", "no function of package proxy returns (context.Context, *grpc.ClientConn, error)")
 		return
 	}
-	dreg := c.region(R.directors...)
+	dreg := c16region(R.directors...)
 	var ctxParams []*ssa.Parameter
 	for _, d := range R.directors {
 		for _, p := range d.Params {
@@ -345,7 +371,10 @@ func runC16M1(c *Ctx) {
 				}
 				// keyed by the context's target
 				for _, a := range call.Call.Args {
-					if c16isTargetT(a.Type()) && derives(a, func(x ssa.Value) bool { return c16ctxValueCall(x) != nil }) {
+					if !c16isTargetT(a.Type()) && typeStr(a.Type().Underlying()) != "string" {
+						continue // the target itself, or the pool key computed from it
+					}
+					if derives(a, func(x ssa.Value) bool { return c16ctxValueCall(x) != nil }) {
 						return true
 					}
 				}
@@ -394,17 +423,55 @@ func runC16W1(c *Ctx) {
 		return
 	}
 	// every option must end up in a slice of options (the literal, an append, a variadic argument)
-	used := func(call *ssa.Call) bool {
-		ok := false
-		eachInstr(call.Parent(), func(i ssa.Instruction) {
-			if st, isSt := i.(*ssa.Store); isSt && st.Val == call {
-				if _, isIA := st.Addr.(*ssa.IndexAddr); isIA {
-					ok = true
+	var usedV func(v ssa.Value, d int) bool
+	usedV = func(v ssa.Value, d int) bool {
+		if v == nil || v.Referrers() == nil || d > 3 {
+			return false
+		}
+		for _, r := range *v.Referrers() {
+			switch y := r.(type) {
+			case *ssa.Store:
+				if _, isIA := y.Addr.(*ssa.IndexAddr); isIA && y.Val == v {
+					return true
+				}
+			case *ssa.Phi:
+				if usedV(y, d+1) {
+					return true
+				}
+			case *ssa.ChangeType:
+				if usedV(y, d+1) {
+					return true
+				}
+			case *ssa.Return:
+				// a helper that builds one option: used where the helper's result is
+				idx := -1
+				for k, res := range y.Results {
+					if res == v {
+						idx = k
+					}
+				}
+				for _, s := range gSites[y.Parent()] {
+					sc, isCall := s.(*ssa.Call)
+					if !isCall || idx < 0 {
+						continue
+					}
+					if len(y.Results) == 1 {
+						if usedV(sc, d+1) {
+							return true
+						}
+						continue
+					}
+					for _, r2 := range *sc.Referrers() {
+						if e, isE := r2.(*ssa.Extract); isE && e.Index == idx && usedV(e, d+1) {
+							return true
+						}
+					}
 				}
 			}
-		})
-		return ok
+		}
+		return false
 	}
+	used := func(call *ssa.Call) bool { return usedV(call, 0) }
 	some := func(names []string, pred func(*ssa.Call) bool) bool {
 		for _, n := range names {
 			for _, call := range opts[n] {
@@ -486,7 +553,7 @@ type c16mdRead struct {
 }
 
 func c16mdReads(v ssa.Value) (reads []c16mdRead, elems []*ssa.IndexAddr) {
-	derives(v, func(x ssa.Value) bool {
+	c16derivesF(v, func(x ssa.Value) bool {
 		switch y := x.(type) {
 		case *ssa.Lookup:
 			if c16isMDT(y.X.Type()) {
@@ -536,7 +603,7 @@ func runC16L1(c *Ctx) {
 			fs := fieldStores(alloc)
 			u := false
 			for _, st := range fs["URL"] {
-				if derives(st.Val, isFullMethod) {
+				if c16derivesF(st.Val, isFullMethod) {
 					u = true
 				}
 			}
@@ -550,8 +617,8 @@ func runC16L1(c *Ctx) {
 		c.check("C16.L1", "proxy.GrpcProxyInterceptor.lookup|path is the full method name", call.Pos(), okURL, "the route is matched against the call's full method (/package.Service/Method)")
 		c.check("C16.L1", "proxy.GrpcProxyInterceptor.lookup|host is the single dsthost metadata value", call.Pos(), okHost, "the host used for routing must be the 'dsthost' metadata value (only when exactly one is present)")
 		// picker / matcher from config
-		okPick := derives(call.Call.Args[3], func(v ssa.Value) bool { _, ok := fieldOf(v, "config.Proxy", "Strategy"); return ok })
-		okMatch := derives(call.Call.Args[4], func(v ssa.Value) bool { _, ok := fieldOf(v, "config.Proxy", "Matcher"); return ok })
+		okPick := c16derivesF(call.Call.Args[3], func(v ssa.Value) bool { _, ok := fieldOf(v, "config.Proxy", "Strategy"); return ok })
+		okMatch := c16derivesF(call.Call.Args[4], func(v ssa.Value) bool { _, ok := fieldOf(v, "config.Proxy", "Matcher"); return ok })
 		c.check("C16.L1", "proxy.GrpcProxyInterceptor.lookup|configured strategy and matcher", call.Pos(), okPick && okMatch, "the gRPC lookup must use route.Picker[cfg.Proxy.Strategy] and route.Matcher[cfg.Proxy.Matcher]")
 	}
 }
@@ -586,18 +653,24 @@ func stripLoad(v ssa.Value) ssa.Value {
 // nil-target guard lives in resolve).
 func (r *c16roles) targetByPairedResult(b *ssa.BasicBlock, needErr bool) bool {
 	for _, ft := range c16factsAt(b, 0) {
-		var e *ssa.Extract
+		var call *ssa.Call
+		eIdx := -1
 		if nn, ok := nilFact(ft, func(v ssa.Value) bool {
-			x, isE := v.(*ssa.Extract)
-			if isE && c16isErrT(x.Type()) {
-				e = x
+			if !c16isErrT(v.Type()) {
+				return false
 			}
-			return isE && c16isErrT(x.Type())
-		}); !ok || nn || e == nil {
-			continue
-		}
-		call, ok := e.Tuple.(*ssa.Call)
-		if !ok {
+			switch x := v.(type) {
+			case *ssa.Extract:
+				if cl, isC := x.Tuple.(*ssa.Call); isC {
+					call, eIdx = cl, x.Index
+					return true
+				}
+			case *ssa.Call:
+				call, eIdx = x, 0 // a helper whose only result is the status to fail the call with
+				return true
+			}
+			return false
+		}); !ok || nn || call == nil {
 			continue
 		}
 		h := call.Call.StaticCallee()
@@ -610,22 +683,57 @@ func (r *c16roles) targetByPairedResult(b *ssa.BasicBlock, needErr bool) bool {
 				tIdx = k
 			}
 		}
+		// without a target result the helper hands the target on in a field of the per-call state it was given (or
+		// returns): a nil error then requires a store of the known non-nil target into such a field on the way
+		var carried []*ssa.Store
 		if tIdx < 0 {
-			continue
+			eachInstr(h, func(i ssa.Instruction) {
+				st, ok := i.(*ssa.Store)
+				if !ok {
+					return
+				}
+				if _, isF := st.Addr.(*ssa.FieldAddr); isF && c16isTargetT(st.Val.Type()) && r.isTarget(st.Val) && c16knownNonNil(st.Block(), samePath(st.Val)) {
+					carried = append(carried, st)
+				}
+			})
+		}
+		// ... or it is given the lookup's outcome and turns it into the status to fail the call with (nil: go on)
+		byArgs := false
+		if tIdx < 0 && len(carried) == 0 {
+			for _, a := range call.Call.Args {
+				if r.isTarget(a) {
+					byArgs = true
+				}
+			}
+			if !byArgs {
+				continue
+			}
 		}
 		good, n := true, 0
 		eachInstr(h, func(i ssa.Instruction) {
 			ret, isR := i.(*ssa.Return)
-			if !isR || len(ret.Results) <= e.Index || len(ret.Results) <= tIdx {
+			if !isR || len(ret.Results) <= eIdx || len(ret.Results) <= tIdx {
 				return
 			}
 			n++
-			ev, tv := ret.Results[e.Index], ret.Results[tIdx]
+			ev := ret.Results[eIdx]
 			if c16surelyError(ev, ret.Block()) {
 				return
 			}
-			if r.isTarget(tv) && c16knownNonNil(ret.Block(), samePath(tv)) && (!needErr || c16knownNil(ret.Block(), r.isLookupErr)) {
-				return
+			errOK := !needErr || c16knownNil(ret.Block(), r.isLookupErr)
+			if tIdx >= 0 {
+				if tv := ret.Results[tIdx]; r.isTarget(tv) && c16knownNonNil(ret.Block(), samePath(tv)) && errOK {
+					return
+				}
+			} else {
+				for _, st := range carried {
+					if dominatesInstr(st, ret) && errOK {
+						return
+					}
+				}
+				if byArgs && errOK && c16knownNonNil(ret.Block(), r.isTarget) {
+					return
+				}
 			}
 			good = false
 		})
@@ -664,7 +772,7 @@ func runC16G1Wrapper(c *Ctx, R *c16roles) {
 			continue
 		}
 		seen := map[types.Type]bool{}
-		derives(call.Call.Args[1], func(v ssa.Value) bool {
+		c16derivesF(call.Call.Args[1], func(v ssa.Value) bool {
 			mi, ok := v.(*ssa.MakeInterface)
 			if !ok || seen[mi.X.Type()] {
 				return false
